@@ -72,6 +72,82 @@ def stats_of(fs, npop):
         tryf('Fst', fs.Fst)
     return st
 
+STAT_METHODS = {'S': 'S', 'pi': 'pi', 'thetaW': 'Watterson_theta', 'D': 'Tajima_D', 'thetaL': 'theta_L', 'E': 'Zengs_E', 'Fst': 'Fst'}
+
+def _state(fs):
+    return (np.asarray(fs.data).tobytes(), np.ma.getmaskarray(fs).tobytes(), tuple(fs.shape), bool(fs.folded),
+            None if fs.pop_ids is None else list(fs.pop_ids))
+
+def _total(fs):
+    t = fs.sum()
+    return None if t is np.ma.masked else fin(t)
+
+def _call(fs, name):
+    try:
+        return fin(getattr(fs, STAT_METHODS[name])()), None
+    except Exception as e:
+        return None, type(e).__name__ + ': ' + str(e)[:120]
+
+def _after(fs, st0, chunk):
+    """the spectrum-level clauses re-evaluated on the object a statistic was just computed from"""
+    st = _state(fs)
+    rec = {'data_same': st[0] == st0[0], 'mask_same': st[1] == st0[1], 'meta_same': st[2:] == st0[2:], 'total': _total(fs),
+           'data_total': fin(np.asarray(fs.data).sum())}
+    if not rec['mask_same']:
+        rec['mask'] = [bool(t) for t in np.ma.getmaskarray(fs).ravel()]
+    if not rec['data_same']:
+        rec['data'] = [float(t) for t in np.asarray(fs.data).ravel()]
+    if chunk is not None:
+        cdata, cmask, ctotal = chunk
+        sc = max(1.0, float(np.max(np.abs(cdata))) if cdata.size else 1.0)
+        rec['chunk_data_dev'] = float(np.max(np.abs(np.asarray(fs.data) - cdata))) / sc if cdata.size else 0.0
+        rec['chunk_mask_same'] = bool(np.array_equal(np.ma.getmaskarray(fs), cmask))
+        rec['chunk_total'] = ctotal
+    return rec
+
+def stat_sequences(c, dd2, frags, pop_ids):
+    """for every (projection kind, mask_corners, polarized): build the spectrum and the sum of the chunk spectra, then evaluate the
+    statistics in the order the case prescribes on THAT object, re-evaluating the spectrum-level clauses after every call; and every
+    statistic alone on a freshly built object"""
+    out = []
+    for cfg in c.get('stat_seqs') or []:
+        projs = c['full'] if cfg['kind'] == 'full' else c['projections']
+        mc, pol = cfg['mask_corners'], cfg['polarized']
+        rec = {'kind': cfg['kind'], 'mask_corners': mc, 'polarized': pol}
+        out.append(rec)
+        try:
+            build = lambda d: dadi.Spectrum.from_data_dict(d, pop_ids, projs, mask_corners=mc, polarized=pol)
+            fs = build(dd2)
+            chunk = None
+            if frags:
+                cfs = [build(f) for f in frags]
+                whole = cfs[0]
+                for f in cfs[1:]:
+                    whole = whole + f
+                chunk = (np.asarray(whole.data).copy(), np.ma.getmaskarray(whole).copy(), _total(whole))
+            st0 = _state(fs)
+            rec['before'] = _after(fs, st0, chunk)
+            rec['fs'] = fs_out(fs)
+            calls = []
+            for name in cfg['calls']:
+                v, err = _call(fs, name)
+                a = _after(fs, st0, chunk)
+                a.update(name=name, value=v, error=err)
+                calls.append(a)
+            rec['calls'] = calls
+            alone = []
+            for name in cfg['alone']:
+                g = build(dd2)
+                sg = _state(g)
+                v, err = _call(g, name)
+                a = _after(g, sg, chunk)
+                a.update(name=name, value=v, error=err, fresh_same_as_first=sg == st0)
+                alone.append(a)
+            rec['alone'] = alone
+        except Exception as e:
+            rec['error'] = type(e).__name__ + ': ' + str(e)[:200]
+    return out
+
 def run_case(c, tmp):
     rec = {'id': c['id']}
     del CHOICES[:]; del PICKS[:]
@@ -136,6 +212,9 @@ def run_case(c, tmp):
             rec['boots_error'] = type(e).__name__ + ': ' + str(e)[:200]
         finally:
             rec['picks'] = list(PICKS)
+    # the statistics must leave the spectrum they are computed from as it was
+    if c.get('stat_seqs'):
+        rec['stat_seqs'] = stat_sequences(c, dd2, frags, pop_ids)
     # statistics on the full-size spectrum
     try:
         full = c['full']
